@@ -35,3 +35,26 @@ NOTES = ("All checks are property-based tests / fuzzing (pgregory.net/rapid v1.3
          "Exit 2 = inconclusive (build failure, time-out), never reported as a violation.")
 
 NOT_CLAIMED = {}
+
+CHECKS["C10"] = dict(
+    pkg="c10", level="exploration",
+    rule=("rapid-generated sequences of 1..30 recursive RESP values (simple/error strings of any bytes but LF, int64 biased to the "
+          "encoder-table edges and the 64-bit limits, bulk strings null/empty/up to 70000 bytes around 511/512/8191/8192, arrays "
+          "null/empty/nested <= 6), a generated partition of the encoded stream into reads (whole, byte-wise, after every CR, random "
+          "cuts snapped into CRLF pairs) delivered by a net.Conn-like reader, decoder buffer in {32,33,64,100,512,4096,8192}. Oracles: "
+          "independent reference encoder/parser (ref/resp.go): decodeAll(chunks(refEnc(vs))) == vs then clean EOF; values stay intact "
+          "after later decodes; sutEnc == refEnc per value and per stream; sutEnc(decode(b)) == b; every strict prefix of a message "
+          "yields a sticky error; inline line == its array form; btoi64/itoa vs strconv (exhaustive over short strings and "
+          "[-70000,70000]). Non-trivial: the stream is split into >= 2 reads, or a line is longer than the buffer, or a bulk is >= 510 "
+          "bytes, or nesting >= 2 (prefix/ints parts: every case); distinct by the canonical JSON of the case."),
+    assumptions=["readers never return data together with EOF nor 0 bytes without error (net.Conn behaviour)",
+                 "btoi64 is allowed to reject non-canonical integers that strconv accepts ('+5', '007'); it must accept canonical ones and never accept text strconv rejects"],
+    parts=[
+        dict(name="roundtrip", test="TestRoundTrip", kind="rapid", checks={"quick": 20000, "thorough": 400000}, shards=16, timeout={"quick": 600, "thorough": 3000}),
+        dict(name="prefix", test="TestPrefix", kind="rapid", checks={"quick": 30000, "thorough": 600000}, shards=4, timeout={"quick": 600, "thorough": 3000}),
+        dict(name="inline", test="TestInline", kind="rapid", checks={"quick": 20000, "thorough": 400000}, shards=4, timeout={"quick": 600, "thorough": 3000}),
+        dict(name="ints", test="TestIntsExhaustive", kind="plain"),
+        dict(name="ints-random", test="TestIntsRandom", kind="rapid", checks={"quick": 20000, "thorough": 2000000}, shards=2, timeout={"quick": 600, "thorough": 3000}),
+        dict(name="fuzz", test="FuzzDecode", kind="fuzz", fuzz_part="fuzz", tiers=["thorough"], fuzztime="180s", timeout=400, exclusive=True),
+    ],
+)
